@@ -80,6 +80,7 @@ EVENTS = [
     ("inverse", {}),
     ("optimizer_step", {}),
     ("load_state_dict", {}),
+    ("load_state_dict_of_enclosing_module", {}),
     ("dtype_or_device_conversion", {}),
 ]
 
@@ -116,12 +117,25 @@ def typestate_rule(ctx):
                 s2 = dict(s)
                 params_changed(s2)
                 outs = [type("O", (), {"store": s2, "kind": "return", "value": None})()]
-            elif name == "load_state_dict":
-                if cls.lookup_method("load_state_dict") is not None:
+            elif name in ("load_state_dict", "load_state_dict_of_enclosing_module"):
+                # torch.nn.Module.load_state_dict calls _load_from_state_dict on every module of the
+                # tree but load_state_dict only on the module it was invoked on: a transform nested
+                # in a CompositeTransform / Flow sees only its _load_from_state_dict
+                outs = [type("O", (), {"store": dict(s), "kind": "return", "value": None})()]
+                ran = False
+                if name == "load_state_dict" and cls.lookup_method("load_state_dict") is not None:
                     outs = ex.run_method("load_state_dict", {}, s)
-                elif cls.lookup_method("_load_from_state_dict") is not None:
-                    outs = ex.run_method("_load_from_state_dict", {}, s)
-                else:
+                    ran = True
+                if cls.lookup_method("_load_from_state_dict") is not None:
+                    nxt = []
+                    for o in outs:
+                        if o.kind != "return":
+                            nxt.append(o)
+                            continue
+                        nxt.extend(ex.run_method("_load_from_state_dict", {}, o.store))
+                    outs = nxt
+                    ran = True
+                if not ran:
                     s2 = dict(s)
                     params_changed(s2)
                     outs = [type("O", (), {"store": s2, "kind": "return", "value": None})()]
